@@ -125,6 +125,9 @@ impl Fringe for RecFringe<'_> {
         }
     }
     fn pop(&mut self) -> Option<SubProblem<St>> {
+        if self.inner.len() >= 4 {
+            note("fringe_pop_len_ge4");
+        }
         let n = self.inner.pop();
         if let Some(n) = n.as_ref() {
             *self.probe.last_pop_ub.lock().unwrap() = Some(n.ub);
